@@ -1,0 +1,66 @@
+// +build verif
+
+// Verification hooks (build tag "verif" only; not part of normal builds).
+
+package stage
+
+import (
+	"sort"
+
+	"potano.layercake/fs"
+)
+
+// VerifLine is the exported image of a parsed add-files line.
+type VerifLine struct {
+	Adding, Ok                                                     bool
+	Ltype                                                          uint8
+	Name, Source, Target                                           string
+	Gid, Uid, AndMask, OrMask, Major, Minor                        uint32
+	Devtype                                                        byte
+	HasWildcard, HasTarget, HasGid, HasUid, HasDev, HasPerm, Skip  bool
+}
+
+// VerifParseFields exposes parseFields.
+func VerifParseFields(line string) ([]string, error) {
+	return parseFields(line)
+}
+
+// VerifParseLine exposes parseLine.
+func VerifParseLine(line string, cursor fs.LineReader) VerifLine {
+	adding, e, ok := parseLine(line, cursor)
+	return VerifLine{Adding: adding, Ok: ok, Ltype: e.ltype, Name: e.name, Source: e.source,
+		Target: e.target, Gid: e.gid, Uid: e.uid, AndMask: e.andMask, OrMask: e.orMask,
+		Major: e.major, Minor: e.minor, Devtype: e.devtype, HasWildcard: e.hasWildcard,
+		HasTarget: e.hasTarget, HasGid: e.hasGid, HasUid: e.hasUid, HasDev: e.hasDev,
+		HasPerm: e.hasPerm, Skip: e.skipIfAbsent}
+}
+
+// VerifParseModString exposes parseModString.
+func VerifParseModString(s string) (int32, int32, error) {
+	return parseModString(s)
+}
+
+// VerifParseUid exposes parseUid.
+func VerifParseUid(s string) (int64, int64, error) {
+	return parseUid(s)
+}
+
+// VerifParseDev exposes parseDev.
+func VerifParseDev(s string) (byte, uint32, uint32, error) {
+	return parseDev(s)
+}
+
+// VerifParseSource exposes parseSource.
+func VerifParseSource(s string) (string, bool, error) {
+	return parseSource(s)
+}
+
+// VerifEntryNames returns the sorted names currently in the (not yet finalized) list.
+func (fl *FileList) VerifEntryNames() []string {
+	names := make([]string, 0, len(fl.entryMap))
+	for k := range fl.entryMap {
+		names = append(names, k)
+	}
+	sort.Strings(names)
+	return names
+}
